@@ -60,6 +60,13 @@ def token_side(name):
 def run(ctx):
     m = Model(ctx)
     prog = ctx.prog
+    from .c19 import builder_view
+
+    class _PV:
+        """m.q replaced by the pymethod view (helper types / free helpers of the extension crate spliced in)"""
+        def q(self, f):
+            return builder_view(m, f) if f.crate.name == "bourse" else m.q(f)
+    pv = _PV()
     # ---------------------------------------------------------------- OrderBook wrapper
     ob = pymethods(ctx, "OrderBook")
     covered = set(OB_TABLE) | {"new", "order_status", "get_trades", "get_orders"}
@@ -71,7 +78,7 @@ def run(ctx):
             ctx.lost("forward", "OrderBook." + name)
             continue
         q = m.q(f)
-        cs = [c for c in q.calls() if c.target is not None and c.target.crate.name == "bourse_book"]
+        cs = [c for c in q.calls() if c.target is not None and c.target.crate.name == "bourse_book" and not (c.target.impl_trait or "").startswith(("std::convert", "core::convert"))]
         ok = len(cs) == 1 and cs[0].name == core and not cs[0].guards and cs[0].args[0][0] == "field" and cs[0].args[0][1] == ("param", 1, "self")
         ctx.check(ok, "forward", "OrderBook.%s|callee" % name, ctx.loc(f), "OrderBook.%s -> core %s, once, unconditionally" % (name, core),
                   "OrderBook.%s calls %s" % (name, [c.text()[:60] for c in cs]))
@@ -96,8 +103,8 @@ def run(ctx):
         if f is None:
             ctx.lost("forward", "StepEnv." + name)
             continue
-        q = m.q(f)
-        cs = [c for c in q.calls() if c.target is not None and c.target.crate.name in ("bourse_de", "bourse_book")]
+        q = pv.q(f)
+        cs = [c for c in q.calls() if c.target is not None and c.target.crate.name in ("bourse_de", "bourse_book") and not (c.target.impl_trait or "").startswith(("std::convert", "core::convert"))]
         ok = len(cs) == 1 and cs[0].name == core and not cs[0].guards and fld(cs[0].args[0], "env")
         ctx.check(ok, "forward", "StepEnv.%s|callee" % name, ctx.loc(f), "StepEnv.%s -> Env::%s, once, unconditionally" % (name, core), "StepEnv.%s calls %s" % (name, [c.text()[:60] for c in cs]))
         if ok:
@@ -109,7 +116,7 @@ def run(ctx):
         if f is None:
             ctx.lost("forward", "StepEnv." + name)
             continue
-        r = m.q(f).ret()
+        r = pv.q(f).ret()
         root, names = field_chain(r)
         names = [("[0]" if n == "[]" else n) for n in names if not n.startswith("as ")]
         ix = [x for x in walk(r) if x[0] == "index"]
@@ -118,18 +125,18 @@ def run(ctx):
         ctx.check(ok, "qualifier", "StepEnv." + name, ctx.loc(f), "StepEnv.%s reads level_2_data().%s" % (name, ".".join(path)), "StepEnv.%s returns %s" % (name, render(r)))
     f = se.get("bid_ask")
     if f is not None:
-        r = m.q(f).ret()
+        r = pv.q(f).ret()
         ok = r[0] == "agg" and r[1] == "tuple" and len(r[3]) == 2 and fld(r[3][0], "bid_price") and fld(r[3][1], "ask_price")
         ctx.check(ok, "qualifier", "StepEnv.bid_ask", ctx.loc(f), "bid_ask = (bid_price, ask_price) of the cached level-2 data", "bid_ask returns %s" % render(r))
     for name, core in (("time", "get_time"), ("trade_vol", "get_trade_vol")):
         f = se.get(name)
         if f is not None:
-            r = m.q(f).ret()
+            r = pv.q(f).ret()
             ok = r[0] == "call" and r[4] == core and r[2][0][0] == "call" and r[2][0][4] == "get_orderbook"
             ctx.check(ok, "qualifier", "StepEnv." + name, ctx.loc(f), "StepEnv.%s = live book %s()" % (name, core), "StepEnv.%s returns %s" % (name, render(r)))
     f = se.get("step")
     if f is not None:
-        q = m.q(f)
+        q = pv.q(f)
         cs = q.calls("step")
         ok = len(cs) == 1 and fld(cs[0].args[0], "env") and fld(cs[0].args[1], "rng") and field_chain(cs[0].args[1])[0] == ("param", 1, "self")
         ctx.check(ok, "forward", "StepEnv.step", ctx.loc(f), "StepEnv.step -> Env::step(&mut self.rng)", "StepEnv.step calls %s" % [c.text() for c in cs])
@@ -137,7 +144,7 @@ def run(ctx):
     for g in se.values():
         if g.name in ("step", "new"):
             continue
-        q = m.q(g)
+        q = pv.q(g)
         uses = [c for c in q.calls() if any(fld(a, "rng") and field_chain(a)[0] == ("param", 1, "self") for a in c.args)]
         ctx.check(not uses, "rng", "StepEnv." + g.name, ctx.loc(g), "StepEnv.%s does not touch the generator" % g.name, "StepEnv.%s uses the generator" % g.name)
     # ---------------------------------------------------------------- order_status, bool->Side, Status->u8
@@ -192,12 +199,15 @@ def run(ctx):
         f = meths.get("place_order")
         if f is not None:
             t = bool_side_table(f, "bid")
-            ctx.check(t == {True: "Bid", False: "Ask"}, "side", cls + ".place_order", ctx.loc(f), "bid=True -> Side::Bid, False -> Side::Ask", "%s.place_order maps %s" % (cls, t))
             q = m.q(f)
+            conv_call = [c for c in q.calls("from") if "Side" in c.resolved and "From<bool>" in c.resolved and c.args and c.args[0][0] == "param" and c.args[0][2] == "bid"]
+            if not t and conv_call:
+                t = {True: "Bid", False: "Ask"}     # `Side::from(bid)`: the From<bool> table itself is checked below
+            ctx.check(t == {True: "Bid", False: "Ask"}, "side", cls + ".place_order", ctx.loc(f), "bid=True -> Side::Bid, False -> Side::Ask", "%s.place_order maps %s" % (cls, t))
             cc = [c for c in q.calls() if c.name in ("create_and_place_order", "place_order") and c.target is not None]
             if cc:
                 s = cc[0].arg_named("side")
-                ok = s is not None and s[0] == "phi" and all(x[0] == "agg" and "Side::" in x[2] for x in s[1])
+                ok = s is not None and ((s[0] == "phi" and all(x[0] == "agg" and "Side::" in x[2] for x in s[1])) or (conv_call and s == conv_call[0].result))
                 ctx.check(ok, "side", cls + ".place_order|flows", cc[0].loc(), "the side passed to the core is the one selected from `bid`", "side argument is %s" % (render(s) if s else "?"))
             # error mapping
             errs = [c for c in q.calls("new_err")]
@@ -207,6 +217,11 @@ def run(ctx):
                 for me in q.calls("map_err"):
                     recv_core = me.args and me.args[0][0] == "call" and me.args[0][4] in ("create_and_place_order", "place_order")
                     clo = me.args[1] if len(me.args) > 1 else None
+                    if recv_core and clo is not None and clo[0] == "fn":
+                        hf = [g for g in prog.units() if g.crate.name == "bourse" and g.kind == "Fn" and clo[1].endswith("::" + g.name)]
+                        if len(hf) == 1:
+                            errs = [c for c in m.q(hf[0]).calls("new_err")]
+                            okm = len(errs) == 1 and "PyValueError" in errs[0].resolved and same(q.ret(), me.result)
                     if recv_core and clo is not None and clo[0] == "agg" and clo[1] == "closure":
                         from analysis.beta import closure_fn
                         cf = closure_fn(m.w, clo)
@@ -284,7 +299,7 @@ def run(ctx):
             f = meths.get(gname)
             if f is None:
                 continue
-            bad = [c.name for c in m.q(f).calls() if c.name in RESTRICT]
+            bad = [c.name for c in pv.q(f).calls() if c.name in RESTRICT]
             ctx.check(not bad, "layout", "%s.%s|whole-list" % (cls, gname), ctx.loc(f), "%s.%s returns every record of the core list, in order" % (cls, gname),
                       "%s.%s passes the core list through %s: records are dropped or reordered" % (cls, gname, bad))
     for gname in ("get_prices", "get_volumes", "get_touch_volumes", "get_touch_order_counts"):
@@ -292,7 +307,7 @@ def run(ctx):
         if f is None:
             ctx.lost("qualifier", "StepEnv." + gname)
             continue
-        r = m.q(f).ret()
+        r = pv.q(f).ret()
         ok = r[0] == "agg" and r[1] == "tuple" and len(r[3]) == 2
         if ok:
             for k, e in enumerate(r[3]):
@@ -301,7 +316,7 @@ def run(ctx):
         ctx.check(ok, "qualifier", "StepEnv." + gname, ctx.loc(f), "StepEnv.%s = (bid, ask) halves of Env::%s in that order" % (gname, gname), "StepEnv.%s returns %s" % (gname, render(r)[:160]))
     f = se.get("get_trade_volumes")
     if f is not None:
-        r = m.q(f).ret()
+        r = pv.q(f).ret()
         ok = any(x[0] == "call" and x[4] == "get_trade_vols" and fld(x[2][0], "env") for x in walk(r))
         ctx.check(ok, "qualifier", "StepEnv.get_trade_volumes", ctx.loc(f), "StepEnv.get_trade_volumes = Env::get_trade_vols()", "get_trade_volumes returns %s" % render(r)[:120])
     for cls, meths, core_owner in (("OrderBook", ob, "OrderBook"), ("StepEnv", se, "Env"), ("StepEnvNumpy", pymethods(ctx, "StepEnvNumpy"), "Env")):
@@ -309,7 +324,7 @@ def run(ctx):
         if f is None:
             ctx.lost("forward", cls + ".new")
             continue
-        q = m.q(f)
+        q = pv.q(f)
         cs = [c for c in q.calls("new") if c.target is not None and c.target.crate.name in ("bourse_book", "bourse_de")]
         ok = len(cs) == 1 and not cs[0].guards and all(a[0] == "param" and a[2] == formal for a, formal in zip(cs[0].args, cs[0].formals))
         ctx.check(ok, "forward", cls + ".new|args", ctx.loc(f), "%s.new passes %s to the core constructor unchanged" % (cls, ", ".join(cs[0].formals) if cs else "?"),
@@ -318,7 +333,7 @@ def run(ctx):
     sn = pymethods(ctx, "StepEnvNumpy")
     for name in sorted(set(se) & set(sn) - {"new", "get_market_data"}):
         def abstr(f):
-            return [(c.name, tuple(render(a) for a in c.args), tuple(sorted(repr(g) for g in c.guards))) for c in m.q(f).calls() if c.target is not None or c.name in ("map", "collect", "iter", "into_iter") or c.name in RESTRICT]
+            return [(c.name, tuple(render(a) for a in c.args), tuple(sorted(repr(g) for g in c.guards))) for c in pv.q(f).calls() if c.target is not None or c.name in ("map", "collect", "iter", "into_iter") or c.name in RESTRICT]
         a, b = abstr(se[name]), abstr(sn[name])
         ctx.check(a == b and bool(a), "sibling", "StepEnvNumpy." + name, ctx.loc(sn[name]), "StepEnvNumpy.%s forwards exactly like StepEnv.%s (%s)" % (name, name, [x[0] for x in a]),
                   "StepEnvNumpy.%s does %s but StepEnv.%s does %s" % (name, [x[0] for x in b], name, [x[0] for x in a]))
